@@ -107,6 +107,10 @@ func lookupWellKnown(ctx context.Context, serverNameType spec.ServerName, dial d
 		inQuotes, start := false, 0
 		for i := 0; i < len(cacheControlHeader); i++ {
 			switch cacheControlHeader[i] {
+			case '\\':
+				if inQuotes {
+					i++ // a quoted pair: the next character is part of the argument
+				}
 			case '"':
 				inQuotes = !inQuotes
 			case ',':
